@@ -236,6 +236,27 @@ ssize_t sim_write(int fd, const void *buf, size_t n) {
   return (ssize_t)k;
 }
 
+/* recv / send: what a changed module may use instead of read / write. MSG_WAITALL blocks until
+   the buffer is full, the peer closes or an error occurs - select()'s timeout does not bound it. */
+ssize_t sim_recv(int fd, void *buf, size_t n, int flags) {
+  if (!(flags & MSG_WAITALL)) return sim_read(fd, buf, n);
+  size_t got = 0;
+  while (got < n) {
+    step("recv"); nreads++;
+    if (reset_on_read >= 0 && nreads > reset_on_read) { errno = ECONNRESET; logf_("recv(WAITALL) = -1 ECONNRESET"); return got ? (ssize_t)got : -1; }
+    int eof; long long nxt; int av = avail_at(now_us, &eof, &nxt);
+    if (av > 0) { size_t k = (size_t)av < n - got ? (size_t)av : n - got; memcpy((char *)buf + got, reply + delivered, k); delivered += k; got += k; continue; }
+    if (eof) break;
+    if (nxt >= 0) { now_us = nxt; continue; }
+    /* nothing more will ever arrive and the agent keeps the connection open: the call blocks for good */
+    now_us += 24LL * 3600 * 1000000; logf_("recv(WAITALL) blocks for ever (%zu of %zu bytes, agent silent)", got, n);
+    errno = EINTR; return -1;
+  }
+  logf_("recv(WAITALL) = %zu", got);
+  return (ssize_t)got;
+}
+ssize_t sim_send(int fd, const void *buf, size_t n, int flags) { (void)flags; return sim_write(fd, buf, n); }
+
 static void track(void *p, size_t len) { if (npw < 8) { pwbufs[npw].p = p; pwbufs[npw].len = len; pwbufs[npw].wiped_checked = 0; npw++; } }
 static long module_allocs, module_frees;
 char *sim_strdup(const char *s) {
